@@ -107,6 +107,12 @@ def check_mesh(case):
     bad = _compare(M, Perm(t), expected, "mesh")
     if bad:
         return bad
+    # the shading is an Iterable of cells: every container form must denote the same pattern
+    cells = [tuple(c) for c in sh]
+    for name, form in (("iter", iter(cells)), ("generator", (c for c in cells)), ("set", set(cells)), ("frozenset", shs), ("reversed_with_duplicates", list(reversed(cells)) + cells[:1])):
+        other = MeshPatt(Perm(p), form)
+        if other != M or hash(other) != hash(M) or sorted(other.occurrences_in(Perm(t))) != sorted(expected):
+            return BAD("mesh_shading_container_" + name, {"got": sorted(other.shading), "want": sorted(shs)})
     nt = 0 < len(expected) < len(classical)
     lab = "removed_some" if nt else ("removed_all" if classical and not expected else ("kept_all" if classical else "no_classical_occurrence"))
     return OK(nt, lab)
